@@ -23,6 +23,7 @@ pub fn run<C: SimCfg>(plan: &Plan, check_distance: usize, frames: u32, expect_re
         .with_sparse_saving_mode(cfg.sparse)
         .with_check_distance(check_distance);
     let empty = |viol: Vec<Violation>| RunOut {
+        log: Vec::new(),
         violations: viol,
         probes: {
             let mut p = Probes::default();
@@ -190,6 +191,7 @@ pub fn run<C: SimCfg>(plan: &Plan, check_distance: usize, frames: u32, expect_re
     probes.ring_wraps_input = game.g.max(0) as u64 / 128;
     let trace = game.trace.0;
     Ok(RunOut {
+        log: Vec::new(),
         violations: viol,
         probes,
         counters: FaultCounters::default(),
